@@ -367,6 +367,7 @@ def random_spec(rng, family="any", n_max=8, a_max=4, label_kind=None, uniform_ac
     sp.meta["num_type"] = rng.choice(["float", "float", "int_if_integral", "np"])
     sp.meta["actions_type"] = rng.choice(["tuple", "tuple", "list"])
     sp.meta["fresh_labels"] = rng.random() < 0.3
+    sp.meta["rely_on_defaults"] = rng.random() < 0.6        # the builders leave documented-default arguments out
     sp.meta["trap"] = len(trap)
 
     # ---- initial distribution -----------------------------------------------------------------
